@@ -90,21 +90,7 @@ theorem fanin_terminal_multiset_eq {c : FanIn.Cfg} {privs : List (List Nat)} {sh
     {s : FanIn.St} (hn : 0 < privs.length) (h : FanIn.Reachable c privs shared k1 k2 s)
     (hclean : s.envStopped = false) (ht : s.terminal = true) : s.got.Perm (privs.flatten ++ shared) := by
   have hg := FanIn.reachable_good h
-  have hlen : s.prods.length = privs.length := by
-    obtain ⟨as, hr⟩ := h
-    have : ∀ (as : List FanIn.Act) (s0 s1 : FanIn.St), FanIn.run c s0 as = some s1 → s1.prods.length = s0.prods.length := by
-      intro as
-      induction as with
-      | nil => intro s0 s1 hr; simp [FanIn.run] at hr; subst hr; rfl
-      | cons a as ih =>
-        intro s0 s1 hr
-        simp only [FanIn.run, List.foldlM_cons] at hr
-        cases hst : FanIn.step c s0 a with
-        | none => simp [hst] at hr
-        | some s2 =>
-          simp only [hst] at hr
-          rw [ih s2 s1 hr, FanIn.prods_length_step hst]
-    rw [this as _ _ hr]; simp [FanIn.init]
+  have hlen : s.prods.length = privs.length := FanIn.reachable_prods_length h
   obtain ⟨t1, t2, t3, t4, t5⟩ := FanIn.terminal_items hg (by omega) hclean ht
   have := fanin_conservation h
   simpa [t1, t2, t3, t4, t5] using this
@@ -116,21 +102,7 @@ theorem fanin_single_producer_order {c : FanIn.Cfg} {l shared : List Nat} {k1 k2
     s.got ++ s.pipe ++ s.prods.flatMap (fun p => p.held.toList) ++ s.dropped ++ s.prods.flatMap (·.src) ++ s.shared
       = l ++ shared ∧ (s.envStopped = false → s.dropped = []) := by
   have hg := FanIn.reachable_good h
-  have hlen : s.prods.length = 1 := by
-    obtain ⟨as, hr⟩ := h
-    have : ∀ (as : List FanIn.Act) (s0 s1 : FanIn.St), FanIn.run c s0 as = some s1 → s1.prods.length = s0.prods.length := by
-      intro as
-      induction as with
-      | nil => intro s0 s1 hr; simp [FanIn.run] at hr; subst hr; rfl
-      | cons a as ih =>
-        intro s0 s1 hr
-        simp only [FanIn.run, List.foldlM_cons] at hr
-        cases hst : FanIn.step c s0 a with
-        | none => simp [hst] at hr
-        | some s2 =>
-          simp only [hst] at hr
-          rw [ih s2 s1 hr, FanIn.prods_length_step hst]
-    rw [this as _ _ hr]; simp [FanIn.init]
+  have hlen : s.prods.length = 1 := by simpa using FanIn.reachable_prods_length h
   have := (hg.order1 hlen).1
   exact ⟨by simpa [FanIn.inputOf] using this, fun hc => (hg.clean hc).dropped⟩
 
